@@ -13,7 +13,14 @@ import (
 
 // zooTags returns the db tag names reachable in a struct type (through
 // embedded structs), for generation only.
-func zooTags(t reflect.Type) []string {
+func zooTags(t reflect.Type) []string { return zooTagsSeen(t, map[reflect.Type]bool{}) }
+
+func zooTagsSeen(t reflect.Type, seen map[reflect.Type]bool) []string {
+	if seen[t] {
+		return nil // a cycle of embedded pointers: Prepare rejects the type anyway
+	}
+	seen[t] = true
+	defer delete(seen, t)
 	var out []string
 	for i := 0; i < t.NumField(); i++ {
 		f := t.Field(i)
@@ -23,8 +30,8 @@ func zooTags(t reflect.Type) []string {
 			if ft.Kind() == reflect.Pointer {
 				ft = ft.Elem()
 			}
-			if ft.Kind() == reflect.Struct && f.IsExported() && ft != t {
-				out = append(out, zooTags(ft)...)
+			if ft.Kind() == reflect.Struct && f.IsExported() {
+				out = append(out, zooTagsSeen(ft, seen)...)
 			}
 			continue
 		}
@@ -50,7 +57,15 @@ type bindGen struct {
 	f *filler
 }
 
-func (g *bindGen) structName() string { return g.r.pick(goodStructs) }
+// struct types that Prepare rejects (or that are odd): used now and then so that every statement form meets them
+var badStructs = []string{"NoTags", "Unexported", "BadFlag", "BadEmpty", "BadQuote", "BadChar", "BadDigit", "DupTag", "DupEmbed", "Rec", "RecA", "RecRoot"}
+
+func (g *bindGen) structName() string {
+	if g.r.chance(1, 15) {
+		return g.r.pick(badStructs)
+	}
+	return g.r.pick(goodStructs)
+}
 
 func (g *bindGen) tagOf(name string) string {
 	tags := zooTags(reflect.TypeOf(zooByName(name)))
@@ -483,6 +498,19 @@ func (g *bindGen) next() bindCase {
 	}
 	if r.chance(1, 25) {
 		c.args = append(c.args, g.argFor(r.pick(goodStructs), false)) // argument of an unused type
+	}
+	// a different type that merely has the same name as an input type, passed next to the real one
+	if r.chance(1, 12) {
+		for _, n := range inNames {
+			switch n {
+			case "Person":
+				c.args = append(c.args, zoo2.Person{ID: 4, Name: "v9"})
+			case "M":
+				c.args = append(c.args, zoo2.M{"k1": 1, "name": 2, "id": 3})
+			case "IntSlice":
+				c.args = append(c.args, zoo2.IntSlice{5, 6})
+			}
+		}
 	}
 	for i := len(c.args) - 1; i > 0; i-- {
 		j := r.intn(i + 1)
